@@ -261,6 +261,17 @@ class World(object):
                 break
         return out
 
+    def kill_greenlet(self, g):
+        """asynchronous kill; subclasses (slimta Queue/Edge) override kill()
+        with other signatures, so go through the base class"""
+        try:
+            if isinstance(g, gevent.Greenlet):
+                gevent.Greenlet.kill(g, block=False)
+            else:
+                self.loop.run_callback(g.throw, GreenletExit)
+        except Exception:
+            pass
+
     # -- teardown
     def close(self):
         global CURRENT
@@ -274,13 +285,7 @@ class World(object):
                 if not alive:
                     break
                 for g in alive:
-                    try:
-                        if hasattr(g, 'kill'):
-                            g.kill(block=False)
-                        else:
-                            loop.run_callback(g.throw, GreenletExit)
-                    except Exception:
-                        pass
+                    self.kill_greenlet(g)
                 loop.step_cap = loop.steps + 20000
                 loop.cap_hit = False
                 try:
